@@ -184,7 +184,9 @@ def ok(o, inp, with_class=True):
     vers = versions_of(type(o)) if isinstance(o, _STIXBase) else None
     if isinstance(o, _STIXBase):
         top = module_version(type(o)) or (vers[0] if vers and len(vers) == 1 else None)
-        other = sorted(v for v in nested_versions(o) if top and v != top)
+        # the members of a Bundle are objects in their own right (each read by its own detected version, a 2.1 bundle may
+        # hold 2.0 objects): the rule is about what an object EMBEDS (extensions, observables of observed-data, markings)
+        other = [] if o.get("type") == "bundle" else sorted(v for v in nested_versions(o) if top and v != top)
         if other:
             # an embedded object (extension, observable, marking, ...) of another spec version than the object holding it
             c = c + " +embedded objects of " + ",".join(other)
